@@ -1060,9 +1060,16 @@ def check_race(case, rec):
             last_seq = max(last_seq, q)
         if st['ev'][0] == 'R' and st['delivered'] is not None and st['delivered'] >= 0:
             if sess_of.get(st['delivered']) != sn['sess'] and st['lock_before'] == 1 and sn['lock'] == 0:
-                fails.append({'class': 'earlier_session_reply_released_lock', 'step_index': si, 'expected': None, 'observed': None,
-                              'detail': 'the reply to request #%s of session %s released the updater lock in session %s'
-                                        % (st['delivered'], sess_of.get(st['delivered']), sn['sess'])})
+                q = st['delivered']
+                k = sess_of.get(q)
+                # consequence of F04h only if THIS reply answers a request that had passed the session check and was parked at
+                # the send lock when its link dropped; any other reply of an earlier session releasing the lock is a violation
+                window = pos_at_down.get(k) == 2 and held_at_down.get(k) == q
+                fails.append({'class': 'earlier_session_request_sent_in_send_window' if window else 'earlier_session_reply_released_lock',
+                              'step_index': si, 'expected': None, 'observed': None,
+                              'detail': 'the reply to request #%s of session %s released the updater lock in session %s%s'
+                                        % (q, k, sn['sess'], ' (that request was parked at the send lock when the link dropped and was sent '
+                                                             'on the new link: same reply pattern as the request now awaited)' if window else '')})
     return fails
 
 
